@@ -222,6 +222,12 @@ fn history_case(front: Front, reg: Reg, rng: &mut Prng, col: &mut Collector) {
                         cmds.extend(rx_timing_setup_req(rng.below(16) as u8));
                     }
                 }
+                // one time in three the frame ends with a request the device has to refuse in every respect
+                // (DlChannelReq for a channel that does not exist, on a frequency nobody has): its answer,
+                // the last octet of the queue, is 0x00 - queued answers may end in any octet
+                if rng.chance(1, 3) {
+                    cmds.extend(dl_channel_req(15, 1_000_000));
+                }
                 script.rx1.push(net.mac_downlink(fdown, &cmds, rng.bool()));
                 fdown = fdown.saturating_add(1);
                 note = "mac-downlink";
